@@ -51,9 +51,13 @@ Definition canon_obs (o : json) : json :=
             | Some (JArr b) => JObj (ainsert "execs" (JArr (canon_multiset b)) (jO o3))
             | _ => o3
             end in
-  match jget "values" o4 with
-  | Some (JArr b) => JObj (ainsert "values" (JArr (canon_multiset b)) (jO o4))
-  | _ => o4
+  let o5 := match jget "ids" o4 with
+            | Some (JArr b) => JObj (ainsert "ids" (JArr (canon_multiset b)) (jO o4))
+            | _ => o4
+            end in
+  match jget "values" o5 with
+  | Some (JArr b) => JObj (ainsert "values" (JArr (canon_multiset b)) (jO o5))
+  | _ => o5
   end.
 
 Definition dec_ctx (o : json) : ctx := mkCtx (jfS "rk" o) (jfS "wk" o).
@@ -165,6 +169,13 @@ Definition run_op (sy : system) (o : json) (now : Z) : system * json :=
                               (fun l => loc_add_rule_c (sem_of_table (jget_d "sem" o)) l (dec_ctx o) (dec_env o now)
                                                        (jfS "id" o) (jnorm (jget_d "rule" o))) in
     (sy', res_of r (fun i => [("id", JStr i)]))
+  else if String.eqb (jfS "op" o) "storeids" then
+    (* the ids held by the location's storage, read behind the engine's back *)
+    match sys_get sy (jfS "loc" o) with
+    | None => (sy, res_of (@Err unit E_noloc) (fun _ => []))
+    | Some l => (sy, JObj [("ids", JArr (canon_multiset (map (fun kv => JStr (fst kv)) (st_store (l_state l)))));
+                           ("ok", JBool true)])
+    end
   else
   match dec_op o with
   | None => (sy, JObj [("class", JStr "unknown-op"); ("ok", JBool false)])
@@ -543,6 +554,7 @@ Record acc := mkAcc {
   a_kf : list string;
   a_feats : list string;
   a_amb : Z;
+  a_lost : bool;                            (* the model lost track of the state (see [lost_track]): the rest is not judged *)
 }.
 
 (** The indexed state's PatternIndex sorts the event's arrays in place while it
@@ -562,14 +574,33 @@ Definition same_res (m obs : json) : bool :=
 Definition feat_of_op (o : json) (m : json) : string :=
   String.append (jfS "op" o) (if jfB "ok" m then "+" else String.append "-" (jfS "class" m)).
 
+(** An injected storage failure that fires inside an operation which removes
+    SEVERAL items from the storage (the purge of several expired items by one
+    search, a fan of dependents) leaves a state that depends on Go's map order
+    (which of them were removed before the failure).  The model cannot know:
+    the rest of such a history is not judged. *)
+Definition sys_nofail (sy : system) : system :=
+  map (fun kv => (fst kv, upd_state (snd kv) (set_fail (l_state (snd kv)) None))) sy.
+
+Definition removed_ids (sy0 sy1 : system) : list string :=
+  flat_map (fun kv => match sys_get sy1 (fst kv) with
+                      | Some l1 => filter (fun id => match alookup id (st_store (l_state l1)) with None => true | Some _ => false end)
+                                          (map fst (st_store (l_state (snd kv))))
+                      | None => []
+                      end) sy0.
+
 Definition step_acc (a : acc) (o : json) : acc :=
   match a_diff a with
   | Some _ => a
   | None =>
+      if a_lost a then a else
       let obs := jget_d "res" o in
       let t := jfZ "t" o in
       let t2 := jfZ "t2" o in
       let sy0 := sys_clear_amb (a_sys a) in
+      if jfB "fired" obs && (2 <=? length (removed_ids sy0 (fst (run_op (sys_nofail sy0) o t))))%nat
+      then mkAcc (a_reg a) (a_sys a) (a_k a) None (a_spec a) (a_kf a) ("lost-track-after-fault" :: a_feats a) (a_amb a + 1) true
+      else
       let try now :=
         let '(sy', m) := run_op sy0 o now in
         let amb := sys_amb sy' || op_risky sy0 o || jfB "amb" m in
@@ -590,6 +621,20 @@ Definition step_acc (a : acc) (o : json) : acc :=
                the public API (the pattern meets stored data with "?"-strings under a repeated variable) *)
             if String.eqb (jfS "class" obs) "crash" || String.eqb (jfS "class" obs) "hang"
             then (true, if op_risky sy0 o then ["D54"] else [])
+            else
+            (* C07, judged on the observation alone: a write of an already-expired item was accepted
+               (expired at the instant before AND at the instant after the call) ... *)
+            if (String.eqb (jfS "op" o) "addfact" || String.eqb (jfS "op" o) "addrule") && jfB "ok" obs &&
+               String.eqb (jfS "class" (snd (run_op sy0 o t))) E_expired &&
+               String.eqb (jfS "class" (snd (run_op sy0 o t2))) E_expired
+            then (true, [])
+            else
+            (* ... or a read returned an item whose own expiry instant had passed when the call began *)
+            if ((String.eqb (jfS "op" o) "getfact" || String.eqb (jfS "op" o) "getrule") && jfB "ok" obs &&
+                fact_expired (jget_d "val" obs) t) ||
+               (String.eqb (jfS "op" o) "search" && jfB "ok" obs &&
+                existsb (fun r => fact_expired (jget_d "fact" r) t) (jfL "found" obs))
+            then (true, [])
             else
             if match jget "ttl_mismatch" obs with Some _ => true | None => false end
             then (true, filter (fun k => String.eqb k "D7") (kf_of sy0 o))
@@ -629,7 +674,7 @@ Definition step_acc (a : acc) (o : json) : acc :=
                  | None => if spec_bad && match kfs with [] => true | _ => false end
                            then Some (a_k a, jfS "op" o) else None
                  end)
-                (if spec_bad then (kfs ++ a_kf a)%list else a_kf a) (a_feats a) (a_amb a)
+                (if spec_bad then (kfs ++ a_kf a)%list else a_kf a) (a_feats a) (a_amb a) false
       | Some (sy', m, amb) =>
           let '(spec_bad, kfs) := judge sy' m amb in
           (* C15: the registry kept by the cron service holds exactly the stored scheduled rules *)
@@ -664,7 +709,7 @@ Definition step_acc (a : acc) (o : json) : acc :=
                  end)
                 (if spec_bad then (kfs ++ a_kf a)%list else a_kf a)
                 (feat_of_op o m :: a_feats a)
-                (if amb then a_amb a + 1 else a_amb a)
+                (if amb then a_amb a + 1 else a_amb a) false
       end
   end.
 
@@ -679,7 +724,7 @@ Definition init_system (locs : list json) : system :=
 
 Definition check_loc (c : json) : json :=
   let sy := init_system (jfL "locs" c) in
-  let a := fold_left step_acc (jfL "ops" c) (mkAcc [] sy 0 None None [] [] 0) in
+  let a := fold_left step_acc (jfL "ops" c) (mkAcc [] sy 0 None None [] [] 0 false) in
   let ghost_bad := match jget "ghost_ok" c with Some (JBool false) => true | _ => false end in
   let multi_load := 1 <? jfZ "stress_loads" c in
   let a := if ghost_bad || multi_load then
@@ -688,7 +733,7 @@ Definition check_loc (c : json) : json :=
                     | Some x => Some x
                     | None => Some (a_k a, if ghost_bad then "existence-check" else "single-load")
                     end)
-                   (a_kf a) (a_feats a) (a_amb a)
+                   (a_kf a) (a_feats a) (a_amb a) (a_lost a)
            else a in
   let kf := dedup_str (a_kf a) in
   JObj [("ok", JBool (match a_diff a with None => true | Some _ => false end));
